@@ -97,13 +97,14 @@ func coord(r *rand.Rand, v *big.Int, size int, mode int) string {
 func (k *ecKey) tokens(r *rand.Rand, form int, extra []string) string {
 	parts := [][2]string{{"int:1", "int:2"}, {"int:-1", intToken(r, int64(k.crv))}}
 	mode := r.Intn(3)
-	if form <= 1 {
+	// form: 0 d only, 1 d+x+y, 2 x+y, 3 x + sign bit (compressed), 4 d + x + sign bit
+	if form <= 1 || form == 4 {
 		dm := r.Intn(2)
 		parts = append(parts, [2]string{"int:-4", coord(r, k.d, k.size(), dm)})
 	}
 	if form >= 1 {
 		parts = append(parts, [2]string{"int:-2", coord(r, k.x, k.size(), mode)})
-		if form == 3 {
+		if form == 3 || form == 4 {
 			parts = append(parts, [2]string{"int:-3", map[bool]string{true: "T", false: "F"}[k.y.Bit(0) == 1]})
 		} else {
 			parts = append(parts, [2]string{"int:-3", coord(r, k.y, k.size(), mode)})
@@ -158,7 +159,10 @@ func (k *edKey) tokens(r *rand.Rand, form int, extra []string) string {
 // optional members shared by all key kinds
 func genCommonExtras(r *rand.Rand, alg int, opsChoices [][]int) []string {
 	var e []string
-	switch r.Intn(4) {
+	switch r.Intn(5) {
+	case 4: // alg present but not an int32-range integer: not the same as absent (no inference from the curve)
+		e = append(e, "int:3", []string{"i64:2147483648", "i64:-2147483649", "i64:1099511627776", "u64:9223372036854775808",
+			"t:4853532d4c4d53", "t:666f6f", "nil", "T", "b:07", fmt.Sprintf("u64:%d", uint64(int64(alg))), fmt.Sprintf("i64:%d", int64(alg)+(1<<32))}[r.Intn(11)])
 	case 0:
 	case 1:
 		e = append(e, "int:3", intToken(r, int64(alg)))
@@ -176,4 +180,17 @@ func genCommonExtras(r *rand.Rand, alg int, opsChoices [][]int) []string {
 		}
 	}
 	return e
+}
+
+// ecKeyFromScalar: the key of curve `alg` with private scalar d (d must be in [1, n-1] of every curve it is used on)
+func ecKeyFromScalar(alg int, d *big.Int) *ecKey {
+	c, crv := curveOfAlg(alg)
+	k := &ecKey{alg: alg, crv: crv, curve: c, d: new(big.Int).Set(d)}
+	k.x, k.y = c.ScalarBaseMult(d.Bytes())
+	return k
+}
+
+// tokensFixedD: a private key holding d as exactly n octets (the same octets whatever the curve), no public members
+func (k *ecKey) tokensFixedD(r *rand.Rand, n int) string {
+	return fmt.Sprintf("{ int:1 int:2 int:-1 %s int:-4 b:%s }", intToken(r, int64(k.crv)), hx(k.d.FillBytes(make([]byte, n))))
 }
